@@ -16,7 +16,7 @@ WLS = [
     wl("chain3"), wl("diamond"), wl("multitask"), wl("diamond_multitask"), wl("fail_mid"), wl("raise_mid"),
     wl("continue_on_fail"), wl("skip_stage"), wl("poll", 2), wl("transient", 2, True), wl("transient", 1, False),
     wl("jump_self", 1), wl("jump_cycle", 2, 2), wl("jump_cycle", 3, 1), wl("jump_forward_diamond", 1),
-    wl("jump_side_fanin", 1), wl("or_split_join"), wl("synthetic"), wl("fan3"),
+    wl("jump_side_fanin", 1), wl("or_split_join"), wl("synthetic"), wl("synthetic_raise"), wl("fan3"),
 ]
 RACY = [wl("fail_branch"), wl("first_of"), wl("quorum")]
 
